@@ -1,6 +1,7 @@
 """C16 - bins-manager operations keep sums and contents consistent, copies independent."""
 import itertools, random
 from runtime import harness as H
+from props import _ded as D
 from runtime import t3_misc as T
 
 
@@ -57,4 +58,6 @@ def t3(rep, tier, seed):
 def run(rep, tier, seed):
     rep.level = "exploration"
     rep.assume("A1", "A6", "A7", "A8")
+    D.run_contracts(rep, "C16", D.binners(), tier, with_lemmas=False, also=())
     t3(rep, tier, seed)
+    D.link_falsifier(rep)
